@@ -89,6 +89,7 @@ class Recorder:
         if k is not None:
             if not self.frozen:
                 self.known_hits[k['id']] += 1
+                self.sample('known-finding:' + k['id'], str(detail)[:400], cap=4)
             return False
         if self.collect:
             if len(self.violations) < 200:
